@@ -19,6 +19,7 @@ import Driver.Block
 import Driver.Inline
 import Driver.HtmlDecode
 import Driver.Html
+import Driver.BlockH
 import Driver.Pipeline
 
 def dispatch (line : String) : String :=
@@ -43,6 +44,7 @@ def dispatch (line : String) : String :=
   | "inline" :: args => Driver.Inline.handle args
   | "htmldecode" :: args => Driver.HtmlDecode.handle args
   | "html" :: args => Driver.Html.handle args
+  | "blockh" :: args => Driver.BlockH.handle args
   | "pipeline" :: args => Driver.Pipeline.handle args
   | _ => "bad-stream"
 
